@@ -386,7 +386,37 @@ def explore_sp_special(case):
     res.count("evaluations")
     if len(syms) != 2 or len(s1.free_symbols | s2.free_symbols) != 2:
         res.fail(site="casadi_to_sympy", clause="symbol_table_consistent", cls="shared_table", detail=dict(table=[str(k) for k in syms]), sub="special", case=case)
-    res.samples.append(dict(special="matrices, cse, f_dict, shared tables"))
+    # matrices in the reverse direction, dense and with structural zeros (identity, diagonal, triangular, a Jacobian): entry (i, j) of the
+    # SymPy matrix is the conversion of entry (i, j)
+    a, b = ca.SX.sym("a"), ca.SX.sym("b")
+    dense = ca.vertcat(ca.horzcat(a + b, a * b, ca.sin(a)), ca.horzcat(b - 1, 2.5 * a, ca.cos(b)))
+    tri = ca.tril(ca.vertcat(ca.horzcat(a, b, a), ca.horzcat(b * b, a + 1, b), ca.horzcat(a * b, 3 + b, a - b)))
+    sp5 = ca.SX(5, 5)
+    for (i, j, e) in ((0, 0, a), (1, 3, b), (2, 1, a * b), (4, 0, a - 2), (3, 4, ca.exp(b)), (4, 4, a + b)):
+        sp5[i, j] = e
+    mats = [("dense", dense), ("identity_scaled", ca.SX.eye(3) * a), ("diag", ca.diag(ca.vertcat(a, b, a * b))), ("tril", tri),
+            ("jacobian", ca.jacobian(ca.vertcat(a * b, ca.sin(a), b * b, a + 2 * b), ca.vertcat(a, b))), ("scattered", sp5),
+            ("numeric_sparse", ca.SX(ca.sparsify(ca.DM([[0, 2.5, 0], [0, 0, -1.5]])))), ("row", ca.horzcat(a, 0, b)), ("column", ca.vertcat(0, a, 0, b))]
+    for tag, Mx in mats:
+        res.count("evaluations")
+        res.nontrivial.add(hash("camat" + tag))
+        try:
+            with contextlib.redirect_stdout(io.StringIO()):
+                sm = S.casadi_to_sympy(Mx, {})
+        except Exception as ex:
+            res.fail(site="casadi_to_sympy", clause="value_preserved", cls="matrix;" + tag, detail=dict(error="%s: %s" % (type(ex).__name__, str(ex)[:200])), sub="special", case=case)
+            continue
+        want = np.array(ca.Function("m", [a, b], [ca.densify(Mx)])(0.7, -1.3), dtype=float)
+        try:
+            sm = sympy.Matrix(sm)
+            subs = {s_: (0.7 if str(s_) == "a" else -1.3) for s_ in sm.free_symbols}
+            got = np.array(sm.subs(subs).evalf(17).tolist(), dtype=float)
+        except Exception as ex:
+            res.fail(site="casadi_to_sympy", clause="value_preserved", cls="matrix;" + tag, detail=dict(result=str(sm)[:200], error="%s: %s" % (type(ex).__name__, str(ex)[:200])), sub="special", case=case)
+            continue
+        if got.shape != want.shape or np.max(np.abs(got - want)) > 1e-12 * (1 + np.max(np.abs(want))):
+            res.fail(site="casadi_to_sympy", clause="value_preserved", cls="matrix;" + tag, detail=dict(converted=got, source=want), sub="special", case=case)
+    res.samples.append(dict(special="matrices (both directions, dense and sparse), cse, f_dict, shared tables"))
     return res
 
 
